@@ -82,6 +82,8 @@ ExcOK ==
                                     /\ Ev.chain[i].msg = want[i].msg /\ Ev.chain[i].stack = want[i].stack
          /\ ToSet(Ev.is) = {want[i].code : i \in 1..Len(want)}
          /\ ~Ev.isAbsent
+         \* the library's own helpers: IsErr / IsCode answer for the head of the chain, IsException for any
+         /\ Ev.isErrHead /\ ~Ev.isErrAbsent /\ Ev.isException
     ELSE TRUE
 
 TDoReturn ==
